@@ -394,9 +394,13 @@ class SafetyMonitor(Monitor):
             # rewrite is not to blame
             try:
                 p_in.c_code_str()
+            except CaseTimeout:
+                raise
             except Exception as e2:
-                if type(e2).__name__ == name:
-                    return False
+                # the input did not compile either (a defect of an earlier step, judged there): how
+                # exactly the compiler trips over it afterwards is not this operation's doing
+                ctx.stat("compile.input_already_uncompilable")
+                return False
             tb = traceback.extract_tb(e.__traceback__)
             where = f"{tb[-1].filename.split('/')[-1]}:{tb[-1].name}" if tb else "?"
             self.emit(sess, steps, step, "compile", f"{name}@{where}", tr, None, {"error": repr(e)[:500]})
